@@ -56,6 +56,12 @@ pub fn judge(prop: &str, level: &Level, unit: &Value, model: &Model, p: &bpaf::O
             }
             return None;
         }
+        (Out::Usage, Outcome::Stdout { text, .. }) if text.contains("Usage") => {
+            ctx.s.validated += 1;
+            ctx.count("usage-fallback");
+            return None;
+        }
+        (Out::Usage, _) => ("empty-line-with-fallback_to_usage-prints-usage", "usage on stdout".into()),
         (Out::Ok(a), _) => ("sentence-accepted-with-denoted-value", format!("value {:?}", a)),
         (Out::Fail, _) => ("non-sentence-fails-on-stderr", "stderr failure with a non-empty message".into()),
     };
@@ -64,6 +70,23 @@ pub fn judge(prop: &str, level: &Level, unit: &Value, model: &Model, p: &bpaf::O
     sig.insert("observed".to_string(), r.class().to_string());
     ctx.violation(Violation { property: prop.into(), rule: rule.into(), sig, unit: unit.clone(), case: json!({"argv": argv, "env": env}), expected, observed: r.brief(), size: argv.len() * 1000 + argv.iter().map(|t| t.0.len()).sum::<usize>() });
     Some(())
+}
+
+fn with_usage_fallback(ls: Vec<Level>) -> Vec<Level> {
+    fn set(l: &mut Level) {
+        l.usage_fallback = true;
+        if let Tail::Cmds { cmds, .. } = &mut l.tail {
+            for c in cmds {
+                set(&mut c.level);
+            }
+        }
+    }
+    ls.into_iter()
+        .map(|mut l| {
+            set(&mut l);
+            l
+        })
+        .collect()
 }
 
 impl Check for C01 {
@@ -89,6 +112,8 @@ impl Check for C01 {
                 push(fam::conventional(2, &t2, seed), 3, false);
                 // one item, deeper, full alphabet (aliases, clusters, lone dash)
                 push(fam::conventional(1, &t2, seed + 1), 4, true);
+                // fallback_to_usage on every level: only a line without any item may print usage
+                push(with_usage_fallback(fam::conventional(2, &t2, seed + 2)).into_iter().step_by(3).collect(), 3, false);
             }
             Tier::Thorough => {
                 let mut t2 = tails.clone();
@@ -98,6 +123,7 @@ impl Check for C01 {
                 push(fam::conventional(1, &t2, seed + 2), 5, true);
                 let small = vec![Tail::None, fam::pos(&[PosKind::Opt]), fam::pos(&[PosKind::Req, PosKind::Many]), fam::cmd_tails(seed, false, false)[1].clone()];
                 push(fam::conventional(3, &small, seed + 3), 3, false);
+                push(with_usage_fallback(fam::conventional(2, &t2, seed + 2)), 3, false);
             }
         }
         out
